@@ -49,13 +49,16 @@ pub fn dec_from_wire(s: &str) -> Option<Decimal> {
     if coef >> 96 != 0 || scale > 28 {
         return None;
     }
-    Some(Decimal::from_parts(
+    let mut d = Decimal::from_parts(
         coef as u32,
         (coef >> 32) as u32,
         (coef >> 64) as u32,
         neg,
         scale,
-    ))
+    );
+    // from_parts drops the sign of a zero; -0 exists (it is what `-Decimal::ZERO` returns)
+    d.set_sign_negative(neg);
+    Some(d)
 }
 pub fn cpx_to_wire(c: Complex<f64>) -> String {
     format!("{},{}", f64_to_wire(c.re), f64_to_wire(c.im))
